@@ -7,6 +7,7 @@
 From Coq Require Import List NArith Bool Arith. Import ListNotations.
 From WV Require Import Gen.Ops Model.Common Model.IR Model.Arena Model.ModuleM Model.GC Proofs.C07L Proofs.CustomsCfg.
 From WV Require Proofs.GC.
+From WV Require Import Model.ParseM Model.EmitM Proofs.Totality Proofs.Switches Proofs.GcDeclare.
 Local Open Scope nat_scope.
 
 (* completeness: every entity reachable from the roots is in the used set ... *)
@@ -31,21 +32,23 @@ Theorem c06_frame : forall m m', gc m = Ok m' ->
   m_exports m' = m_exports m /\ m_start m' = m_start m /\ m_customs m' = m_customs m /\
   m_config m' = m_config m /\ m_locals m' = m_locals m /\ m_producers m' = m_producers m /\
   m_debug m' = m_debug m /\ m_name m' = m_name m /\ m_code_section_offset m' = m_code_section_offset m.
-Proof. exact G.gc_preserves. Qed.
+Proof. exact gc_preserves_full. Qed.
 
 (* an entity is deleted only if it is not in the used set *)
-Theorem c06_only_unused_deleted : forall m m', gc m = Ok m' -> forall u, used m = Ok u ->
-  forall id, contains (m_funcs m) (N.to_nat id) = true -> mem_ent (S_func, id) u = true ->
-             contains (m_funcs m') (N.to_nat id) = true.
-Proof.
-  intros m m' Hg u Hu id Hc Hm. destruct (G.gc_keeps_exactly_used m m' Hg u Hu) as [Hf _].
-  apply Hf. split; assumption.
-Qed.
+Theorem c06_only_unused_deleted :
+  forall m m' : wir,
+         gc m = Ok m' ->
+         forall u : list ent,
+         used m = Ok u ->
+         forall id : N,
+         contains (m_funcs m) (N.to_nat id) = true ->
+         mem_ent (S_func, id) u = true -> contains (m_funcs m') (N.to_nat id) = true.
+Proof. exact gc_only_unused_deleted_full. Qed.
 
 (* the source of the used-analysis and of the sweep still has the control skeleton the model was written against
    (regenerated Gen/GcSkeleton.v = the pinned copy in Proofs/GcPinned.v): roots, edges, residue, sweep order *)
 From WV Require Import Gen.GcSkeleton Proofs.GcPinned.
-Theorem c06_source_skeleton : used_new_skeleton = expected_used_new /\ used_visitor_skeleton = expected_used_visitor /\ gc_run_skeleton = expected_gc_run.
+Theorem c06_source_skeleton : used_new_skeleton = expected_used_new /\ used_visitor_skeleton = expected_used_visitor /\ gc_run_skeleton = expected_gc_run /\ gc_declare_skeleton = expected_gc_declare.
 Proof. exact used_skeleton_pinned. Qed.
 
 (* what the pass keeps it keeps UNCHANGED (nothing is altered, only removed): in every arena, for kept functions (kind, body,
@@ -60,11 +63,15 @@ Theorem c06_kept_entities_unchanged :
          (forall (id : N) (v : mglobal), aget (m_globals m') id = Some v -> aget (m_globals m) id = Some v) /\
          (forall (id : N) (v : mmem), aget (m_memories m') id = Some v -> aget (m_memories m) id = Some v) /\
          (forall (id : N) (v : mdata), aget (m_data m') id = Some v -> aget (m_data m) id = Some v) /\
-         (forall (id : N) (v : melem), aget (m_elements m') id = Some v -> aget (m_elements m) id = Some v) /\
+         (forall (id : N) (v : melem),
+          aget (m_elements m') id = Some v ->
+          aget (m_elements m) id = Some v \/
+          id = anext (m_elements m) /\
+          (exists fs : list N, fs <> [] /\ v = decl_seg fs /\ (forall f : N, In f fs -> liveF m' f))) /\
          (forall (id : N) (v : mimport), aget (m_imports m') id = Some v -> aget (m_imports m) id = Some v) /\
          (forall (id : N) (t : mtype), types_get m' id = Some t -> types_get m id = Some t) /\
          m_locals m' = m_locals m.
-Proof. exact gc_kept_unchanged. Qed.
+Proof. exact gc_kept_unchanged_full. Qed.
 
 Theorem c06_kept_function_unchanged :
   forall (m m' : wir) (id : N) (f : mfunc),
@@ -72,7 +79,7 @@ Theorem c06_kept_function_unchanged :
          aget (m_funcs m') id = Some f ->
          aget (m_funcs m) id = Some f /\
          types_get m' (func_ty f) = types_get m (func_ty f) /\ m_locals m' = m_locals m.
-Proof. exact gc_kept_function. Qed.
+Proof. exact gc_kept_function_full. Qed.
 
 Theorem c06_reachable_submodule_identical :
   forall m m' : wir,
@@ -87,7 +94,7 @@ Theorem c06_reachable_submodule_identical :
             exists ys : list ent,
               succ m x = Ok ys /\
               succ m' x = Ok ys /\ (forall y : ent, In y ys -> In y U /\ In y u /\ same_at m m' y)).
-Proof. exact gc_reachable_closed_submodule. Qed.
+Proof. exact gc_reachable_closed_submodule_full. Qed.
 
 Theorem c06_exports_and_start_same_targets :
   forall m m' : wir,
@@ -97,8 +104,36 @@ Theorem c06_exports_and_start_same_targets :
          (forall (id : N) (e : mexport),
           aget (m_exports m') id = Some e -> item_same m m' (ex_kind e) (ex_item e)) /\
          (forall f : N, m_start m' = Some f -> item_same m m' EK_Func f).
-Proof. exact gc_exports_start_same_targets. Qed.
+Proof. exact gc_exports_start_same_targets_full. Qed.
 
+
+(* ---- the last step of the pass (repair 831b911): a `ref.func f` in a kept body needs f declared outside function bodies; the sweep alone can
+   remove every declarer (witness), so the pass lists the functions left undeclared in ONE new declared element segment: after the pass
+   nothing is undeclared; the element arena is the swept one plus at most that segment, which lists live functions only *)
+Theorem c06_gc_declares_all_referenced :
+  forall (cf : config) (ver : str) (w : wmod) (s : pst) (m' : wir),
+         parseM cf ver w = POk s -> gc (ps_m s) = Ok m' -> undeclared_funcs m' = Ok [].
+Proof. exact gc_declares_all_referenced_after_parse. Qed.
+Theorem c06_gc_declares_all_referenced_wf :
+  forall m m' : wir, dead_in_range (m_elements m) -> gc m = Ok m' -> undeclared_funcs m' = Ok [].
+Proof. exact gc_declares_all_referenced_partial. Qed.
+Theorem c06_sweep_alone_leaves_undeclared :
+  exists m m' : wir,
+           gc_sweep m = Ok m' /\ (exists (f : N) (fs : list N), undeclared_funcs m' = Ok (f :: fs)).
+Proof. exact gc_sweep_leaves_undeclared_refuted. Qed.
+Theorem c06_elements_after_gc :
+  forall m m' : wir,
+         gc m = Ok m' ->
+         exists (m1 : wir) (fs : list N),
+           gc_sweep m = Ok m1 /\
+           undeclared_funcs m1 = Ok fs /\
+           (forall (id : N) (e : melem), aget (m_elements m1) id = Some e -> aget (m_elements m') id = Some e) /\
+           (forall (id : N) (e : melem),
+            aget (m_elements m') id = Some e ->
+            aget (m_elements m1) id = Some e \/
+            fs <> [] /\ id = anext (m_elements m) /\ e = decl_seg fs /\ (forall f : N, In f fs -> liveF m' f)) /\
+           (forall id : N, id <> anext (m_elements m) -> aget (m_elements m') id = aget (m_elements m1) id).
+Proof. exact gc_elements_full. Qed.
 
 Print Assumptions c06_reachable_kept.
 Print Assumptions c06_closed.
@@ -110,3 +145,7 @@ Print Assumptions c06_kept_entities_unchanged.
 Print Assumptions c06_kept_function_unchanged.
 Print Assumptions c06_reachable_submodule_identical.
 Print Assumptions c06_exports_and_start_same_targets.
+Print Assumptions c06_gc_declares_all_referenced.
+Print Assumptions c06_gc_declares_all_referenced_wf.
+Print Assumptions c06_sweep_alone_leaves_undeclared.
+Print Assumptions c06_elements_after_gc.
